@@ -348,7 +348,8 @@ def mkReshape (ann : Ann) (args : Term) : Term :=
     else app .reshape ann args
   | _ => app .reshape ann args
 
-def sortNat (l : List Nat) : List Nat := (l.mergeSort (· ≤ ·)).eraseDups
+/-- axes in canonical (ascending) order; the harness sends each axis once -/
+def sortNat (l : List Nat) : List Nat := l.mergeSort (· ≤ ·)
 
 /-- `Reduce[axes,keepdims=1](T_p(a)) → T_p(Reduce[p[axes],keepdims=1](a))` -/
 def mkReduce (nm : String) (axes : List Nat) (ann : Ann) (args : Term) : Term :=
